@@ -102,6 +102,12 @@ func VH_C06_kill_subtree() {
 		vrtReach("unsubscribed-one-of-two")
 	}
 	vrtAssert(p.scheduler.Once(p.ref, time.Second, &vhUserMsg{N: 9}, vivid.WithSchedulerReference("job")) == nil, "schedule-ok")
+	if vrtChoose(2) == 1 {
+		// the same reference armed again while its job is pending (the scheduler
+		// library refuses the duplicate): the pending job must still die with the actor
+		_ = p.scheduler.Loop(p.ref, time.Second, &vhUserMsg{N: 10}, vivid.WithSchedulerReference("job"))
+		vrtReach("rearmed-while-pending")
+	}
 	w.run(100, "setup-terminates")
 
 	// at the instant an actor is reported terminated (a notice or the event is
